@@ -127,7 +127,7 @@ def run(ctx):
     ctx.coq_props(PROPS)
     d = build(ctx)
     if d:
-        run_corr(ctx, d, 17 * (24 if ctx.tier == 'quick' else 400))
+        run_corr(ctx, d, 17 * (24 if ctx.tier == 'quick' else 400))   # + 6 fixed regression cases run first by the probe
     ctx.cov['rule'] = ('single-mobilizer systems, type cycling over the 17 built-in mobilizers, random direction (forward/Reverse), random '
                        'quaternion/Euler option, identity or random X_PF/X_BM, random options (Screw pitch, Ellipsoid radii incl. spheres, '
                        'SphericalCoords offsets/signs/axis); angles in +-[0.1,1.2] (|cos q1| > 0.36), unit quaternions, u in [-1,1]; '
